@@ -6,6 +6,8 @@ package main
 // Leaving out assumptions can only weaken the hypotheses.
 
 import (
+	"regexp"
+	"sort"
 	"strings"
 	"sync"
 )
@@ -200,4 +202,219 @@ func conflict(a, b map[string]bool) bool {
 		}
 	}
 	return false
+}
+
+// ---- pruning by implementer kind -------------------------------------------
+//
+// An interface sort with many implementers (Evaler: ~80, ast.IsNode: ~35,
+// types.Value: 10) brings two quantified axioms per implementer, and the
+// contracts imported for dispatch or for pure functions have one clause per
+// implementer. A goal about one kind of node needs only the clauses of the
+// kinds it can reach. pruneKinds drops, from the axioms that precede the
+// `; @core` marker,
+//   - the inj/proj axioms of implementers that are not mentioned, and
+//   - contract clauses (lines ending in `; @guard k...`) none of whose guard
+//     kinds is mentioned,
+// where "mentioned" is the least set containing the kinds named in the core
+// (goal, local assumptions, unguarded axioms) and closed under the clauses
+// kept. Dropping hypotheses can only weaken them: a pruned query that is
+// unsat proves the obligation; any other answer is discarded and the full
+// query decides.
+
+var kindRefRe = regexp.MustCompile(`(?:inj|proj)\.(I_[^\s()]+)\.(\d+)`)
+var implAxRe = regexp.MustCompile(`^\(assert \(forall \(\((?:x|i) [^)]*\)\) \(! .*:pattern \(\((?:inj|proj)\.(I_[^\s()]+)\.(\d+) (?:x|i)\)\)\)\)\)\s*$`)
+var closedWorldRe = regexp.MustCompile(`^\(assert \(forall \(\(i I_[^\s()]+\)\) \(! \(or \(= \(tag\.`)
+var defFunRe = regexp.MustCompile(`^\(define-fun ([^\s()]+) `)
+
+func kindMentions(text string, add func(string)) {
+	for _, m := range kindRefRe.FindAllStringSubmatch(text, -1) {
+		add(m[1] + "." + m[2])
+	}
+	const pre = "(= (tag."
+	for off := 0; ; {
+		i := strings.Index(text[off:], pre)
+		if i < 0 {
+			break
+		}
+		i += off
+		off = i + len(pre)
+		j := strings.IndexByte(text[off:], ' ')
+		if j < 0 {
+			break
+		}
+		iface := text[off : off+j]
+		// skip the argument term of tag
+		k := off + j + 1
+		depth := 0
+		for k < len(text) {
+			c := text[k]
+			if c == '(' {
+				depth++
+			} else if c == ')' {
+				if depth == 0 {
+					break
+				}
+				depth--
+			}
+			k++
+		}
+		// text[k] closes (tag ...; then " K)"
+		if k+2 >= len(text) || text[k+1] != ' ' {
+			continue
+		}
+		e := k + 2
+		for e < len(text) && text[e] >= '0' && text[e] <= '9' {
+			e++
+		}
+		if e > k+2 && e < len(text) && text[e] == ')' {
+			add(iface + "." + text[k+2:e])
+		}
+	}
+}
+
+func pruneKinds(q string) string {
+	lines := strings.Split(q, "\n")
+	core := -1
+	for i, ln := range lines {
+		if ln == "; @core" {
+			core = i
+			break
+		}
+	}
+	if core < 0 {
+		return q
+	}
+	type clause struct {
+		idx    int
+		guards []string
+		trig   string // head symbol of the clause's first pattern
+		seen   bool   // trig occurs in the text kept so far
+	}
+	rel := map[string]bool{}
+	var fresh []string // texts whose mentions are not yet processed
+	note := func(t string) { fresh = append(fresh, t) }
+	drop := make([]bool, len(lines))
+	implOf := map[int]string{}
+	var clauses []clause
+	defs := map[string]int{}
+	reached := map[string]bool{}
+	nImpl := 0
+	for i := 0; i < core; i++ {
+		ln := lines[i]
+		if !strings.HasPrefix(ln, "(assert") {
+			if m := defFunRe.FindStringSubmatch(ln); m != nil {
+				defs[m[1]] = i
+			}
+			continue
+		}
+		if m := implAxRe.FindStringSubmatch(ln); m != nil {
+			implOf[i] = m[1] + "." + m[2]
+			drop[i] = true
+			nImpl++
+			continue
+		}
+		if closedWorldRe.MatchString(ln) {
+			continue
+		}
+		if g := strings.LastIndex(ln, "; @guard"); g >= 0 {
+			gs := strings.Fields(ln[g+len("; @guard"):])
+			trig := ""
+			if p := strings.Index(ln, ":pattern (("); p >= 0 {
+				rest := ln[p+len(":pattern (("):]
+				if e := strings.IndexAny(rest, " )"); e > 0 {
+					trig = rest[:e]
+				}
+			}
+			if len(gs) > 0 || trig != "" {
+				clauses = append(clauses, clause{idx: i, guards: gs, trig: trig, seen: trig == ""})
+				drop[i] = true
+				continue
+			}
+		}
+		note(ln)
+	}
+	if nImpl < 24 && len(clauses) < 12 {
+		return q
+	}
+	for i := core; i < len(lines); i++ {
+		note(lines[i])
+	}
+	for len(fresh) > 0 {
+		batch := fresh
+		fresh = nil
+		for _, t := range batch {
+			kindMentions(t, func(k string) { rel[k] = true })
+			for name, idx := range defs {
+				if !reached[name] && strings.Contains(t, name) {
+					reached[name] = true
+					note(lines[idx])
+				}
+			}
+		}
+		for ci := range clauses {
+			c := &clauses[ci]
+			if !drop[c.idx] {
+				continue
+			}
+			if !c.seen {
+				for _, t := range batch {
+					if strings.Contains(t, c.trig) {
+						c.seen = true
+						break
+					}
+				}
+				if !c.seen {
+					continue
+				}
+			}
+			ok := len(c.guards) == 0
+			for _, g := range c.guards {
+				if rel[g] {
+					ok = true
+					break
+				}
+			}
+			if ok {
+				drop[c.idx] = false
+				note(lines[c.idx])
+			}
+		}
+	}
+	for i, k := range implOf {
+		if rel[k] {
+			drop[i] = false
+		}
+	}
+	var sb strings.Builder
+	n := 0
+	for i, ln := range lines {
+		if drop[i] {
+			n++
+			continue
+		}
+		sb.WriteString(ln)
+		sb.WriteByte('\n')
+	}
+	if n == 0 {
+		return q
+	}
+	return sb.String()
+}
+
+// guardKinds: the implementer kinds tested by the antecedent of a contract
+// clause `A ==> B` (empty when the clause is not an implication).
+func (vc *VC) guardKinds(e CExpr, env *SpecEnv) string {
+	b, ok := e.(CBinary)
+	if !ok || b.Op != "==>" {
+		return ""
+	}
+	g := vc.specBool(b.X, env)
+	set := map[string]bool{}
+	kindMentions(g.S, func(k string) { set[k] = true })
+	var ks []string
+	for k := range set {
+		ks = append(ks, k)
+	}
+	sort.Strings(ks)
+	return strings.Join(ks, " ")
 }
